@@ -6,6 +6,7 @@ import (
 	"io"
 	"math"
 	"math/rand"
+	"sort"
 	"strings"
 
 	comet "github.com/wizenheimer/comet"
@@ -208,8 +209,16 @@ func runVecHistory(r *rand.Rand, p vecParams, o vecHistOpts, t *Trace) *Case {
 		case x < 38: // add
 			id := nextID
 			nextID++
-			if o.allowReuse && len(resident) > 0 && r.Intn(3) == 0 {
-				id = resident[r.Intn(len(resident))].id
+			if o.allowReuse && len(removed) > 0 && r.Intn(2) == 0 {
+				// update = remove + add: re-use an id whose removal succeeded (flushed or not)
+				ids := make([]int, 0, len(removed))
+				for rid := range removed {
+					ids = append(ids, int(rid))
+				}
+				sort.Ints(ids)
+				id = uint32(ids[r.Intn(len(ids))])
+				nextID--
+				t.Stat("vec.add_reuse_removed_id")
 			}
 			dim := p.dim
 			if r.Intn(25) == 0 {
